@@ -61,6 +61,8 @@ type VC struct {
 	topRets    []*retEdge // return edges of the function under proof
 	topFrame   *Frame
 	noSplit    bool
+	paramVals  []Value // symbolic arguments of the function under proof
+	preState   *State  // its entry state
 	pendingAlt *retEdge // second group of return edges of the inlined call just executed (see execInstrs)
 }
 
@@ -417,7 +419,7 @@ func (fr *Frame) execLoop(l *Loop, entry []*Edge) []*Edge {
 			}
 		}
 	}
-	if len(invs) == 0 || inlined {
+	if len(invs) == 0 || inlined || vc.refute {
 		// try exact unrolling
 		var exits []*Edge
 		edges := entry
